@@ -21,8 +21,9 @@ ASSUMPTIONS = [
     "byte strings with the same chunk checksum exist'",
     "B is a valid file (wf_new), the server returns the requested extents of B and answers 200 iff the request has more ranges "
     "than its limit; no I/O failure (C12), no misbehaving server (C05, C17); libcurl and the TCP stack are outside the model",
-    "not modelled: range_add's count bookkeeping for a missing zero-length chunk followed by a missing chunk (needs a collision "
-    "for a valid B); int narrowing of dl_byte_range for headers >= 2 GiB",
+    "when only zero-length chunks are missing the model stops in status EmptyRange (the code sends an empty Range value; outcome "
+    "server-dependent, never convergent): excluded for a valid B unless a checksum collides (theorem C04_update_reconstructs_B); "
+    "not modelled: int narrowing of dl_byte_range for headers >= 2 GiB",
 ]
 PROBE = 89   # zck_get_min_download_size(): asserted against the model's H line below
 
@@ -81,7 +82,7 @@ def needed_py(B, A, T0):
     T1 = after_probe(B, T0)
     ok = []
     for i, (dg, clen, ulen, off) in enumerate(B.chunks):
-        if i == 0 and ulen == 0:
+        if i == 0 and ulen == 0 and clen == 0:
             ok.append(True)
         else:
             ok.append(chunk_ok(B.cht, dg, clen, B.chunk_bytes(i, T1)))
@@ -510,11 +511,47 @@ def scenarios(rng, tier, wd, quick_n=18, thorough_n=200):
     t = bytearray(Braw7); t[z7.hdr_len + z7.chunks[3][3]] ^= 2
     out.append((Scn("uflag/partial-damaged", None, Braw7, bytes(t), "partial-damaged"), None))
     out.append((Scn("uflag/complete-long", None, Braw7, Braw7 + b"tail", "complete-long"), None))
+    # first index entry with stored bytes but uncompressed size 0 (the scan must read and check it like any other chunk)
+    f8, h8 = zckfmt.build_file(pl, ht=1, cht=3, dict_chunk=rng.rbytes(21))
+    dg, ud, cl, ul = h8.chunks[0]
+    h8.chunks[0] = (dg, ud, cl, 0)
+    Braw8 = h8.build() + f8[len(f8) - 21 - sum(len(x) for x in pl):]
+    z8 = ZF(Braw8)
+    out.append((Scn("first-ulen0-stored/absent", None, Braw8, None, "absent"), None))
+    t = bytearray(Braw8); t[z8.hdr_len + 3] ^= 4
+    out.append((Scn("first-ulen0-stored/first-damaged", None, Braw8, bytes(t), "partial-damaged"), None))
+    out.append((Scn("first-ulen0-stored/complete", None, Braw8, Braw8, "complete"), None))
     out += many_ranges(rng, tier)
     return out
 
 
 LIMITS = [1, 2, 3, 1000]
+
+
+def probe_invalid_b(res, b, rng):
+    """Outside the property's quantification (B is NOT valid), kept as a regression probe: an index entry with stored
+    length 0 whose digest is not all zeros can never become valid; zckdl then computes an empty range, sends
+    "Range: bytes=" and - with a server that ignores the invalid header (200) - never terminates while indexing
+    range_attempt[] past its end.  The model stops in EmptyRange at the same point."""
+    Braw = zckfmt.build_file([rng.rbytes(10), b"", rng.rbytes(7)], ht=1, cht=3)[0]     # entry 2: clen 0, digest H("")
+    B = ZF(Braw)
+    m = parse_model(b.run_model([model_line(B, None, None, 1000)])[0])
+    if m.get("st") != "EMPTY":
+        res.violation("correspondence", "c04-corr:invalid-b", "model status %s for a B with an unfetchable zero-length chunk" % m.get("st"), {"B": Braw.hex()})
+    for ign in (False, True):
+        b.srv.ignore_invalid_range = ign
+        try:
+            rc, out, log, err = b.run_tool(None, Braw, None, 1000)
+        finally:
+            b.srv.ignore_invalid_range = False
+        res.evaluations += 1
+        if rc == -9999:
+            res.violation("oracle", "c04:invalid-b:empty-chunk-nonzero-digest:hang",
+                          "B with a zero-length chunk whose digest is not zero, server answering 200 to the empty Range value: zckdl does not terminate "
+                          "(%d requests in 30 s: %s ...)" % (len(log), [(l[2], l[1]) for l in log[2:6]]),
+                          {"name": "invalid-b", "B": Braw.hex(), "A": None, "T0": None, "limit": 1000, "ignore_invalid_range": True})
+        elif rc == 0:
+            res.violation("oracle", "c04:invalid-b:empty-chunk-nonzero-digest:exit0", "zckdl exits 0 for a B that does not validate", {"B": Braw.hex()})
 
 
 def run(res, tier, only_case=None):
@@ -536,6 +573,9 @@ def run(res, tier, only_case=None):
             cs = only_case["case"]
             if "B" not in cs:
                 res.evaluations = 0
+                return
+            if cs.get("name") == "invalid-b":
+                probe_invalid_b(res, b, rng)
                 return
             s = Scn(cs["name"], bytes.fromhex(cs["A"]) if cs.get("A") else None, bytes.fromhex(cs["B"]),
                     bytes.fromhex(cs["T0"]) if cs.get("T0") is not None else None, "replay")
@@ -575,6 +615,8 @@ def run(res, tier, only_case=None):
             if len(res.samples) < 6 and nbody > 1 and good:
                 res.sample({"scenario": s.name, "limit": lim, "chunks": len(B.chunks), "header": B.hdr_len,
                             "requests": [(l[2], l[1]) for l in log][:6], "model": mline[:200]})
+        if only_case is None:   # regression probe for the fixed empty-range spin (invalid B: must end with an error, not hang)
+            probe_invalid_b(res, b, rng)
         res.extra["tool_runs"] = b.n
     finally:
         b.close()
